@@ -20,6 +20,9 @@ Case kinds
 
 Canonical cells (JSON): None | ["b",bool] | ["i",int] | ["f",bits] | ["s",str] | ["x",hex] | ["t",ns since epoch]
   | ["d",days since epoch] | ["n",unscaled,exp] (decimal, normalised) | ["l",[cells]] | ["?",type name]
+  | ["z",ns since epoch (UTC instant),utc offset in s] (time-zone-aware timestamp, round 4)
+Options (round 4): "explicit": true in stream / roundtrip / a2o / schema = pass the defaults explicitly (size=None, mappable_as_binary=False,
+  use_identities=False by keyword); "np": true in roundtrip = the Python rows hold NumPy scalars (np.int64, np.float64, np.bool_, np.str_)
 """
 import ast
 import datetime
@@ -54,7 +57,10 @@ LEVEL_TEXT = ("Machine-checked Coq theorems: for every list of tables (empty tab
               "delivers consecutive segments of the rows (proved, any session); one FlatColumn object under any sequence of in-place assignments and "
               "reads: each read returns what a column with the CURRENT attributes returns and round-trips when those are in the typing class (proved); "
               "one frame under calls and in-place renames answers from its rows and the names in force (proved); all three run as sessions against "
-              "the real objects (exhaustive small sessions + random).")
+              "the real objects (exhaustive small sessions + random). Round 4 (input classes): column names and string cells that are not NFC / fold "
+              "differently (sharp s, final sigma, dotless i, long s, Kelvin / Ohm / Angstrom signs, ligatures, Hangul jamo) / carry spaces, braces, "
+              "quotes, in pairs that a normalisation would merge; zone-aware timestamps (instant and offset compared); NumPy scalars in the rows; "
+              "defaults passed explicitly - all through the same model (names and cells are code-point lists carried unchanged).")
 LEVEL_NOTE = ("PARTIAL by construction: cell fidelity through pyarrow/pandas (process_table: to_batches, to_pandas, replace, itertuples; "
               "Table.from_arrays) is NOT proved: in the theorems process_table / Table.from_arrays are Section oracles with the explicit premise "
               "that they return the table's rows; that premise is decided by the differential run only (cells compared in Coq against the values the "
@@ -545,7 +551,16 @@ def canon(v):
         return ["x", v.hex()]
     if isinstance(v, datetime.datetime):
         if v.tzinfo is not None:
-            return ["?", "aware-datetime"]
+            off = v.utcoffset()
+            if off is None or off.microseconds:
+                return ["?", "aware-datetime"]
+            off_s = off.days * 86400 + off.seconds
+            try:
+                base = datetime.datetime(v.year, v.month, v.day, v.hour, v.minute, v.second, v.microsecond)
+            except ValueError:
+                return ["?", type(v).__name__]
+            local = ((base - EPOCH) // datetime.timedelta(microseconds=1)) * 1000 + int(getattr(v, "nanosecond", 0))
+            return ["z", local - off_s * 10**9, off_s]   # the instant (ns since the epoch, UTC) and the offset it is shown at
         try:
             base = datetime.datetime(v.year, v.month, v.day, v.hour, v.minute, v.second, v.microsecond)
         except ValueError:
@@ -582,6 +597,9 @@ def pyval(c):
         return bytes.fromhex(c[1])
     if k == "t":
         return EPOCH + datetime.timedelta(microseconds=c[1] // 1000)
+    if k == "z":
+        tz = datetime.timezone(datetime.timedelta(seconds=c[2]))
+        return (EPOCH + datetime.timedelta(microseconds=c[1] // 1000 + c[2] * 10**6)).replace(tzinfo=tz)
     if k == "d":
         return EPOCH_D + datetime.timedelta(days=c[1])
     if k == "n":
@@ -740,7 +758,10 @@ def _observe_stream(case):
         else:
             arg = {"list": lambda: list(tables), "tuple": lambda: tuple(tables), "gen": lambda: (t for t in tables),
                    "single": lambda: tables[0]}[how]()
-            it, schema = from_arrow(arg) if size is None else from_arrow(arg, size)
+            if case.get("explicit"):
+                it, schema = from_arrow(arg, size=size)          # the default spelled out (size=None) / by keyword
+            else:
+                it, schema = from_arrow(arg) if size is None else from_arrow(arg, size)
             nxt = lambda: next(it, None)
         obs["schema"] = _schema_obs(schema)
     except Exception as e:
@@ -775,15 +796,35 @@ def _observe_batch(case):
     return {"outs": outs}
 
 
+def _np_scalar(v):
+    """The same value as a NumPy scalar (what rows computed with NumPy hold); other values unchanged."""
+    import numpy as np
+
+    if isinstance(v, bool):
+        return np.bool_(v)
+    if isinstance(v, int):
+        return np.int64(v) if -(2**63) <= v < 2**63 else v
+    if isinstance(v, float):
+        return np.float64(v)
+    if isinstance(v, str):
+        return np.str_(v)
+    return v
+
+
 def _observe_roundtrip(case):
     from orso.dataframe import DataFrame
 
     rows = [tuple(pyval(c) for c in r) for r in case["rows"]]
+    if case.get("np"):
+        rows = [tuple(_np_scalar(v) for v in r) for r in rows]
     names = list(case["names"])
     obs = {}
     try:
         df = DataFrame(rows=(r for r in rows) if case.get("lazy") else list(rows), schema=names)
-        t = df.arrow() if case["size"] is None else df.arrow(case["size"])
+        if case.get("explicit"):
+            t = df.arrow(size=case["size"])
+        else:
+            t = df.arrow() if case["size"] is None else df.arrow(case["size"])
         obs["arrow_names"] = list(t.column_names)
         obs["arrow_rows"] = t.num_rows
         obs["fields"] = [_field_obs(f) for f in t.schema]
@@ -835,7 +876,10 @@ def _observe_a2o(case):
     f = pa.field(fs["name"], _patype(fs["t"]), nullable=fs["nullable"])
     obs = {"field": _field_obs(f)}
     try:
-        c = FlatColumn.from_arrow(f, True) if case["mab"] else FlatColumn.from_arrow(f)
+        if case.get("explicit"):
+            c = FlatColumn.from_arrow(f, mappable_as_binary=bool(case["mab"]))
+        else:
+            c = FlatColumn.from_arrow(f, True) if case["mab"] else FlatColumn.from_arrow(f)
         obs["col"] = _col_obs(c)
     except Exception as e:
         obs["col"] = {"raise": _exc(e)}
@@ -852,7 +896,10 @@ def _observe_schema(case):
         return {"ctor": _exc(e)}
     obs = {"cols": [_col_obs(c) for c in cols]}
     try:
-        a = convert_orso_schema_to_arrow_schema(schema, True) if case["ids"] else convert_orso_schema_to_arrow_schema(schema)
+        if case.get("explicit"):
+            a = convert_orso_schema_to_arrow_schema(schema, use_identities=bool(case["ids"]))
+        else:
+            a = convert_orso_schema_to_arrow_schema(schema, True) if case["ids"] else convert_orso_schema_to_arrow_schema(schema)
     except Exception as e:
         obs["fields"] = {"raise": _exc(e)}
         return obs
@@ -1492,6 +1539,8 @@ def _coq_cell(c):
         return "(CBytes %s)" % L.bytes_(bytes.fromhex(c[1]))
     if k == "t":
         return "(CTs %s)" % L.Z(c[1])
+    if k == "z":
+        return "(CTz %s %s)" % (L.Z(c[1]), L.Z(c[2]))
     if k == "d":
         return "(CDate %s)" % L.Z(c[1])
     if k == "n":
@@ -2033,6 +2082,148 @@ def _rand_colops(rng):
     return {"kind": "colops", "col": col, "ops": ops}
 
 
+# ---- round 4: input classes - text that is not NFC / folds differently / looks like markup, zone-aware timestamps, NumPy scalars,
+#      defaults passed explicitly
+NASTY_TEXT = ["cafe\u0301", "caf\u00e9", "\u2126", "\u03a9", "\u212b", "\u00c5", "A\u030a", "\u212a", "K", "k", "stra\u00dfe", "strasse",
+              "STRASSE", "\u03c3\u03c2", "\u03a3", "\u0131", "\u0130", "i\u0307", "\u017ft", "\ufb01", "fi", "{a}", "a{", "}", "{}", "a.b",
+              " a", "a ", "a\tb", "a\nb", "\u200b", "\u00a0", "\U0001F600", "\u1e9e", "\u01c5", "1", "\uff21", "e\u0301\u0323", "e\u0323\u0301",
+              "\u1100\u1161", "\uac00", "%s", "a\\b", "'a'", '"a"', "None", "NULL", "a,b"]
+# two different names that one of NFC / NFKC / lower / casefold / strip / brace removal maps onto each other
+NAME_PAIRS = [("cafe\u0301", "caf\u00e9"), ("\u2126", "\u03a9"), ("\u212b", "\u00c5"), ("A\u030a", "\u00c5"), ("\u212a", "K"), ("K", "k"),
+              ("stra\u00dfe", "strasse"), ("\u03c3", "\u03c2"), ("I", "\u0131"), ("\u0130", "i\u0307"), ("\u017f", "s"), ("\ufb01", "fi"),
+              (" a", "a"), ("a", "a "), ("{a}", "a"), ("\uff21", "A"), ("a\u200b", "a"), ("\u1e9e", "\u00df"),
+              ("e\u0301\u0323", "e\u0323\u0301"), ("\u1100\u1161", "\uac00")]
+TZ_SPECS = [["timestamp", "us", "UTC"], ["timestamp", "us", "+05:30"], ["timestamp", "ms", "-08:00"], ["timestamp", "s", "+00:00"]]
+TZ_OFFSET = {"UTC": 0, "+05:30": 19800, "-08:00": -28800, "+00:00": 0}
+
+
+def _text_grid():
+    """Every pair of confusable names / texts through every route a name or a string cell takes."""
+    for k, (x, y) in enumerate(NAME_PAIRS):
+        ex = bool(k % 2)
+        for n in (x, y):
+            yield {"kind": "a2o", "field": {"name": n, "nullable": False, "t": ["int64"]}, "mab": False, "explicit": ex}
+            yield {"kind": "a2o", "field": {"name": n, "nullable": True, "t": ["list", ["string"]]}, "mab": True}
+        yield _o2a("INTEGER", name=x)
+        yield _o2a("VARCHAR", name=y, nullable=False)
+        cols = [_colspec("INTEGER", name=x), _colspec("VARCHAR", name=y, nullable=False)]
+        yield {"kind": "schema", "cols": [dict(c) for c in cols], "ids": False, "explicit": ex}
+        yield {"kind": "schema", "cols": [dict(c) for c in cols], "ids": True}
+        acols = [{"name": x, "t": ["int64"]}, {"name": y, "t": ["string"]}, {"name": x + y, "t": ["list", ["string"]]}]
+        rows = [[["i", 1], ["s", x], ["l", [["s", x], ["s", y]]]], [["i", 2], ["s", y], None], [["i", 3], None, ["l", [None, ["s", y]]]]]
+        hows = ["df", "list", "gen", "single"]
+        yield {"kind": "stream", "cols": acols, "tables": [[rows]], "size": None, "how": hows[k % 4], "explicit": ex and hows[k % 4] != "df"}
+        yield {"kind": "stream", "cols": acols, "tables": [[rows[:1]], [[]], [rows[1:]]], "size": 2, "how": ["list", "gen", "tuple"][k % 3]}
+        yield {"kind": "roundtrip", "names": [x, y, x + y], "rows": rows, "size": None if k % 2 else 2, "lazy": bool(k % 3 == 0), "explicit": ex}
+        yield {"kind": "roundtrip", "names": [y, x], "rows": [r[:2] for r in rows], "size": None, "lazy": False, "np": True}
+        yield {"kind": "frameops", "cols": acols, "tables": [[rows[:2]], [rows[2:]]], "source": FRAME_SOURCES[k % 2],
+               "ops": [["rename", 2, y + x], ["arrow", None], ["arrow", 1], ["rowcount"]]}
+        yield {"kind": "frameops", "cols": acols[:2], "tables": [[[r[:2] for r in rows]]], "source": FRAME_SOURCES[2 + k % 3],
+               "ops": [["arrow", None], ["arrow", None]]}
+        yield {"kind": "colops", "col": _colspec("INTEGER", name=x), "ops": [["field"], ["set", "name", y], ["field"], ["schema", False]]}
+        yield {"kind": "iterops", "cols": acols, "tables": [[rows[:2]], [rows[2:]]], "size": None, "how": "list",
+               "ops": [["next"], ["islice", 1], ["list"]]}
+    # every text of the pool as a column name and as a cell, 6 at a time
+    for i in range(0, len(NASTY_TEXT), 6):
+        part = NASTY_TEXT[i:i + 6]
+        acols = [{"name": n, "t": ["string"]} for n in part]
+        rows = [[["s", n] for n in part], [None] * len(part), [["s", n] for n in reversed(part)]]
+        yield {"kind": "stream", "cols": acols, "tables": [[rows]], "size": None, "how": "df"}
+        yield {"kind": "roundtrip", "names": list(part), "rows": rows, "size": None, "lazy": False}
+        yield {"kind": "schema", "cols": [_colspec("VARCHAR", name=n) for n in part], "ids": False}
+        yield {"kind": "batch", "cols": acols, "chunks": [rows[:1], rows[1:]]}
+
+
+def _tz_rows(spec):
+    off = TZ_OFFSET[spec[2]]
+    u = UNIT_NS[spec[1]]
+    inst = [1577836800 * 10**9 + (1000 if u <= 1000 else 0), None, -1 * 10**9, 0, None, 86399 * 10**9, 4102444800 * 10**9]
+    return [[["i", i], None if v is None else ["z", (v // u) * u, off]] for i, v in enumerate(inst)]
+
+
+def _tz_grid():
+    """Zone-aware timestamp columns (fixed offsets): Arrow -> rows, rows -> Arrow -> rows, sessions."""
+    for k, spec in enumerate(TZ_SPECS):
+        cols = [{"name": "id", "t": ["int64"]}, {"name": "at", "t": spec}]
+        rows = _tz_rows(spec)   # the far ends of the calendar are left to the naive columns: a zone shift can leave year 1..9999
+        for how in ("list", "df", "gen"):
+            yield {"kind": "stream", "cols": cols, "tables": [[rows[:2]], [[]], [rows[2:]]], "size": None, "how": how}
+        yield {"kind": "stream", "cols": cols, "tables": [[rows]], "size": 2, "how": "single"}
+        yield {"kind": "batch", "cols": cols, "chunks": [rows[:1], rows[1:]]}
+        yield {"kind": "iterops", "cols": cols, "tables": [[rows[:2]], [rows[2:]]], "size": None, "how": "list", "ops": [["next"], ["list"]]}
+        yield {"kind": "frameops", "cols": cols, "tables": [[rows]], "source": "arrow-gen", "ops": [["arrow", None], ["arrow", 1]]}
+        if spec[1] == "us":
+            yield {"kind": "roundtrip", "names": ["id", "at"], "rows": rows, "size": None, "lazy": bool(k % 2)}
+            yield {"kind": "frameops", "cols": cols, "tables": [[rows]], "source": "rows-list", "ops": [["arrow", None], ["arrow", None]]}
+
+
+def _value_grid():
+    """NumPy scalars in the rows handed to DataFrame, defaults passed explicitly, equal-but-different values side by side."""
+    rows = [[["i", 1], ["f", _bits(1.0)], ["b", True], ["s", "1"], ["n", 1, 0]],
+            [["i", 0], ["f", _bits(-0.0)], ["b", False], ["s", "0"], ["n", 0, 0]],
+            [["i", 2**60 + 1], ["f", _bits(0.0)], None, ["s", ""], ["n", 15, -1]],
+            [["i", -1], None, ["b", True], None, None]]
+    names = ["i", "f", "b", "s", "n"]
+    for np_ in (False, True):
+        for size in (None, 0, 2, 5):
+            for lazy in (False, True):
+                yield {"kind": "roundtrip", "names": names, "rows": rows, "size": size, "lazy": lazy, "np": np_, "explicit": size is None or lazy}
+    cols = [{"name": "i", "t": ["int64"]}, {"name": "f", "t": ["float64"]}, {"name": "b", "t": ["bool"]}, {"name": "s", "t": ["string"]},
+            {"name": "n", "t": ["decimal128", 5, 1]}]
+    srows = [r if r[0] is not None else r for r in rows]
+    for how in ("list", "gen", "tuple", "single"):
+        for size in (None, 3):
+            yield {"kind": "stream", "cols": cols, "tables": [[srows]], "size": size, "how": how, "explicit": True}
+    for n, m in [("STRUCT", True), ("VARCHAR", False)]:
+        yield {"kind": "a2o", "field": {"name": "m", "nullable": True, "t": ["struct", [["a", ["int64"]]]]}, "mab": m, "explicit": True}
+
+
+def _nastify(case, rng):
+    """A random case of an existing kind with its column names (and some string cells) replaced by texts of the pool."""
+    k = case["kind"]
+
+    def names(n):
+        return rng.sample(NASTY_TEXT, n)
+
+    if k in ("stream", "iterops", "batch", "frameops"):
+        ns = names(len(case["cols"]))
+        case = dict(case, cols=[dict(c, name=n) for c, n in zip(case["cols"], ns)])
+        if k == "frameops":
+            case["ops"] = [op if op[0] != "rename" else ["rename", op[1], rng.choice(NASTY_TEXT) + "#"] for op in case["ops"]]
+    elif k == "roundtrip":
+        case = dict(case, names=names(len(case["names"])))
+    elif k == "schema":
+        ns = names(len(case["cols"]))
+        case = dict(case, cols=[dict(c, name=n) for c, n in zip(case["cols"], ns)])
+    elif k == "colops":
+        case = dict(case, col=dict(case["col"], name=rng.choice(NASTY_TEXT)),
+                    ops=[op if op[:2] != ["set", "name"] else ["set", "name", rng.choice(NASTY_TEXT)] for op in case["ops"]])
+    if k in ("stream", "roundtrip", "schema") and case.get("how") != "df" and rng.random() < 0.5:
+        case["explicit"] = True
+
+    def cell(c):
+        if c is not None and c[0] == "s" and rng.random() < 0.5:
+            return ["s", rng.choice(NASTY_TEXT)]
+        if c is not None and c[0] == "l":
+            return ["l", [cell(x) for x in c[1]]]
+        return c
+
+    if k in ("stream", "iterops", "frameops"):
+        case["tables"] = [[[[cell(c) for c in r] for r in ch] for ch in t] for t in case["tables"]]
+    elif k == "roundtrip":
+        case["rows"] = [[cell(c) for c in r] for r in case["rows"]]
+    elif k == "batch":
+        case["chunks"] = [[[cell(c) for c in r] for r in ch] for ch in case["chunks"]]
+    return case
+
+
+def _rand_nasty(rng):
+    r = rng.random()
+    base = (_rand_stream if r < 0.3 else _rand_roundtrip if r < 0.5 else _rand_schema if r < 0.62 else _rand_frameops if r < 0.77
+            else _rand_iterops if r < 0.87 else _rand_colops if r < 0.95 else _rand_batch)(rng)
+    return _nastify(base, rng)
+
+
 def _rand_frameops(rng):
     ncols = rng.randint(1, 4)
     cols = [{"name": rng.choice(["a", "name", "été", "x y", "Col"]) + str(j), "t": rng.choice(RT_SPECS)} for j in range(ncols)]
@@ -2186,6 +2377,12 @@ def exhaustive(tier):
             yield c
         for c in _col_grid():
             yield c
+        for c in _text_grid():
+            yield c
+        for c in _tz_grid():
+            yield c
+        for c in _value_grid():
+            yield c
 
     return it(), ("all splittings of 0..%d rows into 1..4 tables (zero-row tables anywhere) x size limits none, 0, 1..N+1 (and the empty table list); "
                   "every OrsoTypes member, every element type (by member and by name), every DECIMAL(p,s) with 0<=s<=p<=38, p>=1; "
@@ -2193,7 +2390,9 @@ def exhaustive(tier):
                   "stream) from arrow()/arrow(0|1|N|N+1)/rowcount/materialize() x frames over Arrow tables (list, generator, single) and over "
                   "Python rows (list, generator), and in-place renames between the calls; the rows iterator consumed in three steps (all pairs from next / "
                   "next(iter()) / islice 0,2 / for-break 1,2 / list / for, then list) on four streams x sizes; one column object read, modified in place "
-                  "(every type, decimal parameters, element types, name, nullable), read again" % nmax)
+                  "(every type, decimal parameters, element types, name, nullable), read again; round 4: %d pairs of confusable names (NFC/NFKC/case folding/"
+                  "strip/braces) and a pool of %d such texts as column names and string cells through every route, zone-aware timestamp columns, NumPy "
+                  "scalars in the rows, defaults passed explicitly" % (nmax, len(NAME_PAIRS), len(NASTY_TEXT)))
 
 
 def _rand_schema(rng):
@@ -2239,6 +2438,9 @@ def generate(rng, tier):
         yield _rand_iterops(rng)
     for _ in range(150 if tier == "quick" else 2000):
         yield _rand_colops(rng)
+    # round 4: random cases of every kind with names / string cells from the pool of awkward texts
+    for _ in range(250 if tier == "quick" else 3000):
+        yield _rand_nasty(rng)
 
 
 def corpus():
@@ -2263,6 +2465,11 @@ def corpus():
     for src in ("arrow-gen", "arrow-list", "rows-gen"):
         yield {"kind": "frameops", "cols": id_col, "tables": [t1, [[]], t2], "source": src,
                "ops": [["arrow", None], ["arrow", None], ["rowcount"], ["arrow", 2]]}
+    # round 4 (seeded C11-r4s2): a name that is not in NFC form carries over code point by code point
+    yield {"kind": "a2o", "field": {"name": "cafe\u0301", "nullable": False, "t": ["int64"]}, "mab": False}
+    yield {"kind": "stream", "cols": [{"name": "cafe\u0301", "t": ["int64"]}, {"name": "caf\u00e9", "t": ["string"]}],
+           "tables": [[[[["i", 1], ["s", "\u2126"]]]]], "size": None, "how": "df"}
+    yield {"kind": "roundtrip", "names": ["\u212b", "\u00c5"], "rows": [[["i", 1], ["s", "\u212a"]]], "size": None, "lazy": False}
     # round 3 (seeded C11-r3s1): a column read, changed in place, read again describes what it is now
     yield {"kind": "colops", "col": _colspec("DECIMAL", p=10, s=2),
            "ops": [["field"], ["set", "p", 38], ["set", "s", 0], ["field"], ["schema", False], ["set", "name", "amount"], ["schema", False]]}
@@ -2295,6 +2502,8 @@ def search(rng):
             yield _rand_iterops(rng)
         for _ in range(10):
             yield _rand_colops(rng)
+        for _ in range(15):
+            yield _rand_nasty(rng)
         ms = _members()
         t = rng.choice(ms)
         yield _o2a(t, elem=rng.choice(ms) if t == "ARRAY" else None,
